@@ -40,12 +40,21 @@ def hist_to_script(hist, c):
 def rand_history(rng, cfg, n):
     even = cfg["mode"] == "plugin"
     h = [{"ev": "reset", "now": rng.randint(0, 5)}]
-    nid, held = [0], []
+    held = []
+
+    used = set()
 
     def enq(gate_ok=True):
-        nid[0] += 1
-        ttl = rng.choice([2, 4, 6]) if even else rng.choice([1, 2, 3, 4, 5, 7])
-        o = {"ev": "enq", "id": "q%d" % nid[0], "prio": rng.choice([0, 0, 1, 2]), "ttl": ttl}
+        # the id names priority and time-to-live (DpqITrace reads them as constants of the whole trace)
+        while True:
+            ttl = rng.choice([2, 4, 6]) if even else rng.choice([1, 2, 3, 4, 5, 7])
+            prio = rng.choice([0, 0, 1, 2])
+            free = [c for c in "abcdefgh" if "p%dt%d%s" % (prio, ttl, c) not in used]
+            if free:
+                break
+        rid = "p%dt%d%s" % (prio, ttl, free[0])
+        used.add(rid)
+        o = {"ev": "enq", "id": rid, "prio": prio, "ttl": ttl}
         if gate_ok and rng.random() < 0.3:
             o["gate"] = True
             held.append(o["id"])
@@ -134,7 +143,7 @@ def witness_of(rej):
 def judge(ctx, binary, scripts, traces, tag, seen):
     def one(it):
         i, ev = it
-        return validate_history_trace(ctx, SPEC, "DpqTrace", ev, tag="%s%d" % (tag, i))
+        return validate_history_trace(ctx, SPEC, "DpqTrace", ev, tag="%s%d" % (tag, i), deque=True)
     res = parallel(one, list(enumerate(traces)), n=6)
     ctx.log("%s: %d traces (%d events) validated against DpqP" % (tag, len(traces), sum(len(t) for t in traces)))
     for (acc, rejected, rounds), ev, sc in zip(res, traces, scripts):
@@ -155,13 +164,33 @@ def judge(ctx, binary, scripts, traces, tag, seen):
             reproduced = False
             for attempt in range(20):       # goroutine scheduling inside one instant is not under the driver's control
                 t2 = execute(ctx, binary, script, "%s-repro" % tag)[0]
-                a2, r2, _ = validate_history_trace(ctx, SPEC, "DpqTrace", t2, tag="%s-repro" % tag)
+                a2, r2, _ = validate_history_trace(ctx, SPEC, "DpqTrace", t2, tag="%s-repro" % tag, deque=True)
                 if r2:
                     reproduced = True
                     break
             if not reproduced:
                 raise Broken("rejection not reproduced in 20 attempts (%s): %s" % (tag, json.dumps(w)))
             ctx.violation(w, {"script": script, "trace": [rej["config"]] + rej["hist"], "rejected_at": rej["at"]})
+    # conformance of the implementation-shaped model (never a verdict): repaired hand-off first, then the pinned one
+    def drift(it):
+        i, ev = it
+        rej = None
+        for kf in (0, 1):
+            e2 = [dict(ev[0], kf=kf)] + ev[1:]
+            acc, rej, _ = validate_history_trace(ctx, SPEC, "DpqITrace", e2, tag="%s-i%d-%d" % (tag, i, kf), max_rounds=1, timeout=300, deque=True)
+            if not rej:
+                return None
+        return rej[0]
+    sel = list(enumerate(traces))
+    if not ctx.thorough and tag != "cx":        # quick tier: every other recording
+        sel = sel[::2]
+    drifts = parallel(drift, sel, n=6)
+    ctx.log("%s: %d traces validated against DpqI" % (tag, len(sel)))
+    for d in drifts:
+        if d is not None:
+            ctx.cov["model_drift"] = True
+            if len([n for n in ctx.notes if n.startswith("MODEL-DRIFT")]) < 5:
+                ctx.notes.append("MODEL-DRIFT (%s): the code does not behave like DpqI at %s" % (tag, json.dumps(d["hist"][d["at"]])[:300]))
 
 
 def cx_of(r):
@@ -181,7 +210,7 @@ def run(ctx):
                        "TTLs around window ends, held goroutines, arrivals started together, arrivals racing the roll-over goroutine), through "
                        "Enqueue and through StrategyBasedQueuePlugin.OnRequest; a history is non-trivial when a request waited across a clock "
                        "advance and was let through and some request was refused; distinct by (config, events)")
-    ctx.cov["checker_cmd"] = "tlc -config MC_dpq_a.cfg MC_C10.tla (and MC_dpq_b); tlc -config DpqTrace.cfg DpqTrace.tla"
+    ctx.cov["checker_cmd"] = "tlc -config MC_dpq_a.cfg MC_C10.tla (and MC_dpq_b); tlc -config DpqTrace.cfg DpqTrace.tla; tlc -config DpqITrace.cfg DpqITrace.tla"
     ctx.cov["trusted_base"] = ["TLC 1.8 / PlusCal translator", "CommunityModules Json", "Go toolchain", "harness/internal/vh StepClock",
                                "harness/internal/c12q goroutine-dump quiescence test", "harness/cmd/c10 projection (Enqueue true / NoOp = let through, "
                                "false / EarlyResponse = refused)"]
@@ -226,7 +255,7 @@ def run(ctx):
     judge(ctx, binary, scripts, traces, "cx", seen)
 
     # (3) spec -> code: TLC-generated driver schedules of DpqI, replayed; judged by P, compared with I's prediction
-    n = 40 if not T else 300
+    n = 30 if not T else 300
     def gen(name):
         return ctx.tlc(sd, "GenC10", name + ".cfg", workers=1, simulate="num=%d" % n, depth=400,
                        extra=["-seed", str(ctx.seed)], timeout=900, label="behaviour generation " + name)
@@ -252,14 +281,13 @@ def run(ctx):
             mism += any(p[i] != "none" and (p[i] == "ok") != got.get(i) for i in p if i in got)
     ctx.log("replayed %d TLC behaviours, %d differ from the model's prediction" % (tot, mism))
     if mism:
-        ctx.notes.append("%d of %d replayed behaviours differ from DpqI's prediction (judged by P)" % (mism, tot))
-        if mism * 10 > tot:
-            ctx.cov["model_drift"] = True
+        ctx.notes.append("%d of %d replayed behaviours end differently from the walk TLC chose (DpqI is nondeterministic on equal (priority, arrival) "
+                         "and on a TTL firing at a window end); every recording is validated against DpqI and DpqP below" % (mism, tot))
     ctx.sample({"kind": "tlc-behaviour-replayed", "config": scripts[0]["config"], "events": traces[0][1:16]})
     judge(ctx, binary, scripts, traces, "gen", seen)
 
     # (4) code -> spec: random scripts incl. arrivals started together and arrivals racing the roll-over
-    ncfg, nh, hl = (8, 20, 24) if not T else (32, 60, 30)
+    ncfg, nh, hl = (8, 14, 24) if not T else (32, 60, 30)
     scripts = []
     for c in range(ncfg):
         cfg = {"quota": ctx.rng.choice([1, 1, 2, 3]), "w": ctx.rng.choice([2, 4]), "qsize": ctx.rng.choice([1, 2, 3]),
@@ -282,7 +310,7 @@ def run(ctx):
                 e["ok"] = True
         bad2 = [e for e in ev if not (e["ev"] == "adv" and ev.index(e) > k and ev.index(e) < k + 40)]   # clock advances dropped
         for nm, b in (("refusals-flipped", bad1), ("advances-dropped", bad2)):
-            _, rej, _ = validate_history_trace(ctx, SPEC, "DpqTrace", b, tag="self-" + nm, max_rounds=1)
+            _, rej, _ = validate_history_trace(ctx, SPEC, "DpqTrace", b, tag="self-" + nm, max_rounds=1, deque=True)
             if not rej:
                 raise Broken("self-test: corrupted trace (%s) accepted" % nm)
         ctx.notes.append("self-test: refusals recorded as releases and dropped clock advances were both rejected")
@@ -294,7 +322,7 @@ def replay(ctx, path):
     rc = 0
     for attempt in range(20):
         t = execute(ctx, binary, obj["replay"]["script"], "replay")[0]
-        acc, rej, _ = validate_history_trace(ctx, SPEC, "DpqTrace", t, tag="replay")
+        acc, rej, _ = validate_history_trace(ctx, SPEC, "DpqTrace", t, tag="replay", deque=True)
         if rej:
             rc = 1
             break
